@@ -52,7 +52,7 @@ def in_scope(rule, s):
 class C08(Check):
     pid = 'C08'
     level = 'model_checking'
-    rule = ('meek, warren (full arithmetic x omega x defeat_batch menu, including omega below one unit which forces the stable-state exit) and meek-prf '
+    rule = ('meek, warren (full arithmetic x omega x defeat_batch menu, including omega below one unit which forces the stable-state exit, and omega = 10^-140 at 150+150 digits so that every round needs hundreds of distributions) and meek-prf '
             'on U(3,<=4) x seats; defaults on U(3,5), W(4,2,3,{1,2}), weighted W(3,3,3,{1,2,3,5,8}); equal-rank profiles Q(3,<=3) and the 4-candidate QW(4) family for meek/warren '
             '(thorough: Q(3,4), U(3,6), W(4,2,4,{1,2,3}), full menu on more). states = distinct in-scope snapshots (statuses, keep factors, tallies, residual), '
             'transitions = distinct consecutive pairs, traces_validated = real counts whose every in-scope snapshot and every iteration exit satisfied the model. '
@@ -66,6 +66,7 @@ class C08(Check):
         yield from families.seats_ties(2, spaces.U(2, 0, 6), cfgs=D + menu[::4])
         yield from families.seats_ties(3, spaces.U(3, 0, 4), cfgs=D)
         yield from families.seats_ties(3, spaces.U(3, 0, 4), ties='id', cfgs=menu)
+        yield from families.seats_ties(3, spaces.U(3, 0, 3), ties='id', cfgs=configs.MEEK_DEEP)
         yield from families.seats_ties(3, spaces.Q(3, 0, 3), ties='id', cfgs=D[:2] + menu[::3])
         yield from families.seats_ties(4, spaces.W(4, 2, 3, (1, 2)), seats=(1, 2, 3), ties='id', cfgs=D + menu[::6])
         yield from families.withdrawn_family(3, spaces.U(3, 0, 4), D, seats=(1, 2))
@@ -149,7 +150,12 @@ class C08(Check):
                         elif x == 'defeated' and c == cur_named and k != one_u:
                             viol('kf-preexclusion', 'candidate %s being excluded has keep factor %s' % (c, k), s)
                         elif x == 'elected' and not 0 < k <= one_u:
-                            viol('kf-elected', 'elected candidate %s has keep factor %s' % (c, k), s)
+                            if k == 0 and t.kind == 'guarded' and t.V.guard and 2 * omega10_of(cfg, t) > t.V.precision + t.V.guard:
+                                # F15: Guarded with guard digits ignores round='up'; kf*quota underflows to exactly 0
+                                viol('kf-elected-underflow-guarded', 'elected candidate %s has keep factor 0 (kf*quota underflows %d+%d digits at omega 10^-%d)'
+                                     % (c, t.V.precision, t.V.guard, omega10_of(cfg, t)), s)
+                            else:
+                                viol('kf-elected', 'elected candidate %s has keep factor %s' % (c, k), s)
                     key = h64((tuple(sorted(s.st.items())), tuple(sorted(kf.items())), tuple(sorted(s.vote.items())), s.residual))
                     acc.states.add(key)
                     if prevkey is not None and prevkey != key:
